@@ -172,7 +172,7 @@ fn ordinary(role: &'static str, token: u64, rng: &mut Rng) -> (Vec<u8>, Sent) {
             let q = t.path().as_bytes().to_vec();
             let w = oracle::frame(hdr(id, 0, 1, 1, 2), &q, &body);
             let len = w.len();
-            let out = Tout { t: token, r: t.path().to_string(), pad: r.pad.clone() };
+            let out = Tout { t: token, r: t.path().to_string(), pad: r.pad.clone(), fail: 0 };
             (w, Sent { role, id, token, notify: 0, query: q, invoked: true, route: Some(t), exp: Exp::Record(out), len })
         }
     }
@@ -324,7 +324,7 @@ fn outer(tok: &mut u64, rng: &mut Rng) -> Outer {
             let q = t.path().as_bytes().to_vec();
             let wire = oracle::frame(hdr(id, 0, 1, 1, 2), &q, &serde_json::to_vec(&r).unwrap());
             let len = wire.len();
-            let out = Tout { t: token, r: t.path().to_string(), pad: r.pad };
+            let out = Tout { t: token, r: t.path().to_string(), pad: r.pad, fail: 0 };
             Outer { wire, sent: Sent { role: "outer", id, token, notify: 0, query: q.clone(), invoked: true, route: Some(t), exp: Exp::Record(out), len }, embedded: vec![], embed_at: None, kind, tail_kind: "rest-of-frame", ql: q.len() }
         }
     }
